@@ -16,9 +16,16 @@ if not fi:
     sys.exit(1)
 env = dict(os.environ, CARGO_NET_OFFLINE="true"); env.pop("RUSTUP_TOOLCHAIN", None)
 subprocess.run(["cargo", "build", "--release", "--offline", "--manifest-path", os.path.join(V, "replay", "Cargo.toml"), "--target-dir", os.path.join(V, "build", "replay-target")], env=env, capture_output=True)
-p = subprocess.run([os.path.join(V, "build", "replay-target", "release", "replay"), "run", fi["scenario"], json.dumps(fi["tape"])], capture_output=True, text=True)
+exe = os.path.join(V, "build", "replay-target", "release", "replay")
+if fi["scenario"].startswith("threads "):
+    # real-thread scenario (profile T): `block` is a deterministic schedule, `stress` a repeated race
+    p = subprocess.run([exe] + fi["scenario"].split() + (["200000"] if " stress " in fi["scenario"] else []), capture_output=True, text=True)
+else:
+    p = subprocess.run([exe, "run", fi["scenario"], json.dumps(fi["tape"])], capture_output=True, text=True)
 r = json.loads(p.stdout)
 print("replayed on the real crate:", fi["scenario"], fi["tape"])
 for l in r["history"]:
     print("   ", l)
+for v in r["violations"]:
+    print("   =>", v["property"], v["what"])
 sys.exit(1 if r["violations"] else 0)
